@@ -51,12 +51,15 @@ def main():
             continue
         sh(["git", "-C", REPO, "apply", patch])
         t0 = time.time()
+        out, rc = "", 0
         try:
-            r = sh([sys.executable, os.path.join(ROOT, "checks", "check.py"), pid, "--tier", tier], cwd=ROOT, timeout=3600)
-            out = r.stdout
-            rc = r.returncode
-        except subprocess.TimeoutExpired:
-            out, rc = "", -9
+            for q in [pid] + list(meta.get("also_checks", [])):
+                try:
+                    r = sh([sys.executable, os.path.join(ROOT, "checks", "check.py"), q, "--tier", tier], cwd=ROOT, timeout=3600)
+                    out += r.stdout
+                    rc = rc or r.returncode
+                except subprocess.TimeoutExpired:
+                    rc = -9
         finally:
             sh(["git", "-C", REPO, "checkout", "--", "."])
         viol = [l for l in out.split("\n") if l.startswith("VIOLATION")]
@@ -68,7 +71,13 @@ def main():
         print(n, pid, status, "%.0fs" % (time.time() - t0), flush=True)
         json.dump(results, open(res_path, "w"), indent=1, sort_keys=True)
     # leave the evidence/generated files of the touched properties in their clean-tree state
-    for pid in sorted({results[n]["property"] for n in names if n in results}):
+    touched = {results[n]["property"] for n in names if n in results}
+    for n in names:
+        try:
+            touched |= set(json.load(open(os.path.join(sdir, n, "meta.json"))).get("also_checks", []))
+        except (OSError, ValueError):
+            pass
+    for pid in sorted(touched):
         sh([sys.executable, os.path.join(ROOT, "checks", "check.py"), pid, "--tier", "quick"], cwd=ROOT)
     json.dump(results, open(res_path, "w"), indent=1, sort_keys=True)
 
